@@ -146,3 +146,16 @@ def KEYS_DIR(context):
 
 def UNHEX(s):
     return bytes.fromhex(s)
+
+
+def KEY_IS_EC(k):
+    from cryptography.hazmat.primitives.asymmetric.ec import EllipticCurvePrivateKey
+    return isinstance(k, EllipticCurvePrivateKey)
+
+
+def KEY_SIZE(k):
+    return k.key_size if KEY_IS_EC(k) else 256
+
+
+def KEY_KIND(k):
+    return "ec" if KEY_IS_EC(k) else type(k).__name__.lower().replace("privatekey", "").replace("_", "")
